@@ -1,9 +1,9 @@
 """C08 — link footnotes are numbered consistently with their references."""
-from ..facts import AnchorMissing, callee_def, op_place, op_const
+from ..facts import AnchorMissing, callee_def, op_place, op_const, is_bare
 from ..util import (SUBR, TEXTR, RTRAIT, ends, is_callee, field_accesses, site, fn_key,
                     consumer_of_ref, callee_method, dominated_by_true_edge, require,
                     closure_bodies_created_in, transitive_closures, edge_is_true, src_field,
-                    edges_where, unreachable_without_edges)
+                    edges_where, unreachable_without_edges, direct_place)
 
 EXPLANATION = (
     "Static decision of where the footnote state lives and who touches it: the per-render link "
@@ -236,7 +236,9 @@ def rule_e(ctx):
     dec = F.call_sites(lambda cd, t: ends(cd, "TextDecorator::finalise"))
     bad = [(b.id, t["span"]) for b, _, t in dec if b.id != fin.id]
     ctx.check(not bad, "C08-E", "decorator.finalise:only-from-SubRenderer::finalise", "", "", "other callers: %s" % bad)
-    ctx.floor("C08-E", "decorator.finalise call sites", len(dec), 2)
+    ctx.floor("C08-E", "decorator.finalise call sites", len(dec), 1)
+    modes = set()
+    covered_by_data = False
     for b, bb, t in dec:
         if b.id != fin.id:
             continue
@@ -244,15 +246,37 @@ def rule_e(ctx):
         on_false = dominated_by_true_edge(b, bb, "RenderOptions", "include_link_footnotes", False)
         at = b.atoms(t["args"][1])
         if on_true:
+            modes.add("on")
             ctx.check(("arg", 2) in at, "C08-E", "finalise:on→links", t["span"], b.id,
                       "with footnotes on the decorator must receive the collected links")
         elif on_false:
+            modes.add("off")
             ctx.check(("call", "std::vec::Vec::<T>::new") in at and ("arg", 2) not in at, "C08-E",
                       "finalise:off→empty", t["span"], b.id,
                       "with footnotes off the decorator must receive an empty list")
         else:
-            ctx.violation("C08-E", "finalise:ungoverned", t["span"], b.id,
-                          "decorator.finalise call not governed by include_link_footnotes")
+            # data form: one call whose argument was chosen under the option — `let urls = if on { links } else { vec![] }`
+            pl = direct_place(b, t["args"][1])
+            got = {}
+            if pl is not None and is_bare(pl):
+                for r in b.defs()[pl["l"]]:
+                    if r[0] == "mutcall" or r[1] not in b.reachable():
+                        continue
+                    d_true = dominated_by_true_edge(b, r[1], "RenderOptions", "include_link_footnotes", True)
+                    d_false = dominated_by_true_edge(b, r[1], "RenderOptions", "include_link_footnotes", False)
+                    if r[0] == "stmt" and "use" in r[3]["rv"]:
+                        a2 = b.atoms(r[3]["rv"]["use"])
+                        got["on" if d_true else ("off" if d_false else "?")] = "links" if ("arg", 2) in a2 else "other"
+                    elif r[0] == "call":
+                        got["on" if d_true else ("off" if d_false else "?")] = "empty" if ends(callee_def(r[2]), "Vec::<T>::new") else "other"
+                    else:
+                        got["?"] = "other"
+            ctx.check(got == {"on": "links", "off": "empty"}, "C08-E", "finalise:on→links/off→empty(data)", t["span"], b.id,
+                      "decorator.finalise must receive the collected links exactly when include_link_footnotes is on, an empty "
+                      "list otherwise; found %s" % got)
+            covered_by_data = True
+    ctx.check(covered_by_data or modes == {"on", "off"}, "C08-E", "finalise:both-settings-reach-the-decorator", fin.span, fin.id,
+              "decorator.finalise must be called whether or not footnotes are included (found %s)" % sorted(modes))
 
 
 def rule_f(ctx):
